@@ -59,4 +59,16 @@ KindC(e, pre, post, want) ==
   Cl("C13.kind", want = "A",
      e.out = "ok" => \A i \in DOMAIN e.res : post[e.res[i]].k = want)
 
+UsesParamOnly(v) == \A i \in DOMAIN v.s : \A k \in DOMAIN v.s[i] : ParamOnly[v.s[i][k][2]]
+\* text occurs in body as a run of whole ';'-separated parameters
+OccursIn(text, body) ==
+  \E off \in 0..(Len(body) - Len(text)) :
+     /\ SubSeq(body, off + 1, off + Len(text)) = text
+     /\ (off = 0 \/ body[off] = SEMI)
+     /\ (off + Len(text) = Len(body) \/ body[off + Len(text) + 1] = SEMI)
+
+Shown(run, v) ==
+  /\ Len(run.chars) = Len(v.t)
+  /\ \A i \in DOMAIN v.t : run.chars[i][1] = v.t[i] /\ run.chars[i][2] = Display(v.s[i])
+
 =============================================================================
